@@ -68,6 +68,11 @@ def functions():
         order = gen.choice(r, ["C", "F", "A", "A"])
         f = {"function": lambda a: numpoly.reshape(a, t, order=order), "method": lambda a: a.reshape(t, order=order),
              "numpy": lambda a: numpy.reshape(a, t, order=order)}[how]
+        if how != "method" and r.random() < .3:
+            # `order` handed over positionally, numpy's third positional parameter (seeded change C09-11)
+            how = how + "-positional-order"
+            M = numpoly if how.startswith("function") else numpy
+            f = lambda a: M.reshape(a, t, order)
         # index arrays get the memory layout of the operand (order="A" reads it): transposed views are F-contiguous
         a = P(r, sh)
         if len(sh) >= 2 and r.random() < .5:
@@ -216,6 +221,24 @@ def functions():
         k = int(r.integers(2, 4))
         sel = r.integers(0, k, size=sh)
         ops = [P(r, sh, names=gen.gen_names(r, 1, 2)) for _ in range(k)]
+        if r.random() < .35:
+            # selectors outside [0, n): numpy's modes decide (clip maps negatives to 0, wrap takes them modulo n, raise
+            # rejects them) - never "count from the end" (seeded change C09-12)
+            mode = gen.choice(r, ["clip", "wrap", "raise"])
+            sel = r.integers(-2, k + 2, size=sh)
+            return ops, lambda *a: numpoly.choose(sel, list(a), mode=mode), lambda *i: numpy.choose(sel, list(i), mode=mode), \
+                {"selector": sel.tolist(), "mode": mode}
+        if r.random() < .15:
+            # a 0-d selector over 0-d choices (D52)
+            ops = [P(r, (), names=gen.gen_names(r, 1, 2)) for _ in range(k)]
+            sel0 = int(r.integers(0, k))
+            selv = gen.choice(r, [sel0, numpy.array(sel0), numpy.int64(sel0)])
+            return ops, lambda *a: numpoly.choose(selv, list(a)), lambda *i: numpy.choose(selv, list(i)), {"selector": sel0, "choices": "0-d"}
+        if r.random() < .25:
+            # choices of different shapes broadcast against each other and the selector (D51), also a 0-d selector (D52)
+            ops = [P(r, sh, names=gen.gen_names(r, 1, 2)), P(r, (), names=gen.gen_names(r, 1, 2))] + ([P(r, sh[-1:], names=gen.gen_names(r, 1, 2))] if k == 3 else [])
+            sel = r.integers(0, len(ops), size=sh if r.random() < .7 else ())
+            return ops, lambda *a: numpoly.choose(sel, list(a)), lambda *i: numpy.choose(sel, list(i)), {"selector": sel.tolist(), "choices": "mixed shapes"}
         return ops, lambda *a: numpoly.choose(sel, list(a)), lambda *i: numpy.choose(sel, list(i)), {"selector": sel.tolist()}
     one("choose", choose)
 
